@@ -1580,6 +1580,125 @@ def hold_sweep_case(run, rng, pv, site_idx, reconnect=False):
             pc.safe_disconnect(conn)
 
 
+def platform_and_interpreter_case(run, rng, pv, idx):
+    """Two ways for a session to end that are nobody's protocol:
+    'thread-start-fails'   - the platform cannot start a thread just when
+                             connect() wants its networking thread
+                             (RuntimeError from Thread.start(), raised to the
+                             caller);
+    'listener-exits'       - a listener raises SystemExit / KeyboardInterrupt
+                             (sys.exit() in a callback): the networking thread
+                             ends through a BaseException.
+    Afterwards disconnect() does not raise, connect() on the now idle object is
+    accepted and produces a working session."""
+    from minecraft.exceptions import InvalidState
+    from minecraft.networking import connection as C
+    from minecraft.networking.packets import clientbound
+    variant = ('thread-start-fails', 'listener-exits')[idx % 2]
+    H = Harness(pv)
+    rec = pc.Recorder()
+    conn = None
+    w = {'pv': pv, 'variant': variant}
+    escaped = []
+    old_hook = threading.excepthook
+    threading.excepthook = lambda args: escaped.append(args.exc_type.__name__)
+    orig_start = C.NetworkingThread.start
+    try:
+        K = pc.monitored_connection_class()
+        conn = K('127.0.0.1', H.server.port, username='vfuser',
+                 allowed_versions={pv}, handle_exception=rec.handle_exception,
+                 handle_exit=rec.handle_exit)
+        conn.vf_log = rec.log
+        first_raised = None
+        if variant == 'thread-start-fails':
+            fail = [1]
+
+            def start(self):
+                if fail:
+                    fail.pop()
+                    raise RuntimeError("can't start new thread")
+                return orig_start(self)
+            C.NetworkingThread.start = start
+            try:
+                conn.connect()
+            except Exception as e:
+                first_raised = e
+            C.NetworkingThread.start = orig_start
+            w['connect_raised'] = repr(first_raised)
+        else:
+            exc_type = (SystemExit, KeyboardInterrupt)[idx // 2 % 2]
+            w['listener_raises'] = exc_type.__name__
+            fired = []
+
+            def bye(packet):
+                if not fired:
+                    fired.append(1)
+                    raise exc_type(0)
+            conn.register_packet_listener(bye,
+                                          clientbound.play.KeepAlivePacket)
+            conn.connect()
+            if not pc.wait_for(lambda: H.ios and getattr(
+                    H.ios[-1], 'phase', '') == 'play', 10.0):
+                return 'never reached play state'
+            H.ios[-1].cmds.put(('ka-noecho', 99))
+            if not pc.wait_for(lambda: fired, 5.0):
+                return 'the exiting listener never ran'
+            pc.wait_for(lambda: not any(t.is_alive()
+                                        for t in pc.threads_of(conn)), 5.0)
+        raised = []
+        if variant == 'thread-start-fails' or idx // 4 % 2:
+            try:
+                conn.disconnect()
+            except Exception as e:
+                raised.append(repr(e))
+        else:
+            # (the thread is gone: the object is idle without anybody having
+            # to say so)
+            w['disconnect_called_before_reconnecting'] = False
+        pc.wait_for(lambda: not any(t.is_alive()
+                                    for t in pc.threads_of(conn)), 5.0)
+        run.count('platform_and_interpreter_cases')
+        if raised:
+            run.violation('disconnect/raised/%s' % variant, 'disconnect() '
+                          'raised', dict(w, raised=raised))
+        H.next_mode = 'hold'
+        n0 = len(H.ios)
+        try:
+            conn.connect()
+        except Exception as e:
+            run.violation('reconnect/refused-on-idle-object/%s' % variant,
+                          'connect() on the object whose session had ended '
+                          'raised', dict(w, error=repr(e)))
+            return None
+        ok = pc.wait_for(lambda: len(H.ios) > n0 and getattr(
+            H.ios[-1], 'phase', '') == 'play', 10.0) and H.alive(H.ios[-1])
+        if not ok:
+            run.violation('reconnect/no-session/%s' % variant, 'connect() on '
+                          'the idle object was accepted but produced no '
+                          'working session', dict(
+                              w, exc=repr(rec.exceptions[:2]),
+                              escaped=escaped[:3], threads=[
+                                  t.name for t in threading.enumerate()][:8]))
+            return None
+        # ... and is then the registered, active connection
+        try:
+            conn.connect()
+            r2 = None
+        except Exception as e:
+            r2 = e
+        if not isinstance(r2, InvalidState):
+            run.violation('active/not-refused/%s' % variant, 'a further '
+                          'connect() on the active connection is not refused',
+                          dict(w, raised=repr(r2)))
+        return None
+    finally:
+        C.NetworkingThread.start = orig_start
+        threading.excepthook = old_hook
+        H.stop()
+        if conn is not None:
+            pc.safe_disconnect(conn)
+
+
 def failing_flush_case(run, rng, pv, idx):
     """disconnect() with packets still queued, on a connection whose send()
     fails - not with "the peer has closed", but with a time-out, an
@@ -2188,6 +2307,19 @@ def run(run):
         run.case(('stale-error-vs-successor', i))
         if err:
             run.inconclusive_because('stale error vs successor %d: %s'
+                                     % (i, err))
+    for i in range(16 if thorough else 4):
+        if not run.mine(i):
+            continue
+        err = None
+        for attempt in range(3):
+            err = platform_and_interpreter_case(
+                run, rng, (757, 404, 340, 47)[i % 4], i)
+            if err is None:
+                break
+        run.case(('platform-and-interpreter', i))
+        if err:
+            run.inconclusive_because('platform/interpreter case %d: %s'
                                      % (i, err))
     for i in range(24 if thorough else 6):
         if not run.mine(i):
